@@ -260,4 +260,51 @@ int cmd_hashtable_replay(const Args& a)
     fclose(out);
     return 0;
 }
+
+// ---------------------------------------------------------------- C08: the score algebra (spec -> code)
+// rows printed by ScoreAlgebra.tla:  SCO v mate? kind y up   /   WIN k win_in(k) lost_in(k)
+int cmd_score_table(const Args& a)
+{
+    std::ifstream in(a.s("in"));
+    FILE* out = fopen(a.s("out", "/dev/stdout").c_str(), "w");
+    std::string tag;
+    long n = 0, bad = 0;
+    while (in >> tag)
+    {
+        if (tag == "SCO")
+        {
+            long v, mate, y, up;
+            std::string kind;
+            in >> v >> mate >> kind >> y >> up;
+            n++;
+            std::string txt = score2str(Value(v));
+            std::istringstream is(txt);
+            std::string ek;
+            long ey = 0;
+            is >> ek >> ey;
+            bool em = is_mate(Value(v));
+            bool ok = (em ? 1 : 0) == mate && ek == kind && (kind != "mate" || ey == y);
+            if (!ok)
+            {
+                bad++;
+                fprintf(out, "{\"prop\":\"C08\",\"kind\":\"score_algebra\",\"detail\":{\"value\":%ld,\"spec_is_mate\":%ld,\"engine_is_mate\":%d,\"spec\":\"%s %ld\",\"engine\":%s}}\n",
+                        v, mate, (int)em, kind.c_str(), y, jstr(txt).c_str());
+            }
+        }
+        else if (tag == "WIN")
+        {
+            long k, w, l;
+            in >> k >> w >> l;
+            n++;
+            if ((long)win_in((int)k) != w || (long)lost_in((int)k) != l)
+            {
+                bad++;
+                fprintf(out, "{\"prop\":\"C08\",\"kind\":\"score_algebra\",\"detail\":{\"k\":%ld,\"spec\":[%ld,%ld],\"engine\":[%ld,%ld]}}\n", k, w, l, (long)win_in((int)k), (long)lost_in((int)k));
+            }
+        }
+    }
+    fprintf(out, "{\"summary\":true,\"rows\":%ld,\"mismatches\":%ld}\n", n, bad);
+    fclose(out);
+    return 0;
+}
 }  // namespace vh
